@@ -61,4 +61,15 @@ theorem onceOK_count (c : CId) : ∀ ev : List Ev, onceOK ev = true → ev.count
     | unmet n => simpa [onceOK, List.count_cons] using ih (by simpa [onceOK] using h)
     | skipUtd n => simpa [onceOK, List.count_cons] using ih (by simpa [onceOK] using h)
 
+theorem autoRun_reach {inp : Input} : ∀ (k : Nat) (s : Sys), Reach inp s → Reach inp (autoRun inp k s) := by
+  intro k
+  induction k with
+  | zero => intro s h; exact h
+  | succ k ih =>
+    intro s h
+    simp only [autoRun]
+    cases hs : step inp s (defaultChoice s) with
+    | none => exact h
+    | some s' => exact ih s' (Reach.next h hs)
+
 end DoitModel.Delayed
